@@ -36,7 +36,8 @@ inductive BoundExpr where
   | intLit (v : Int)                     -- `type == Type_Integer`: literal, `?` (= INT_MAX): `u.integer` is the active member
   | funcall (text : String)              -- `type == Type_Funcall`; text = EXPRto_string
   | ident (obj : Nat) (text : String)    -- resolved identifier (constant, attribute, derived attribute): `u` holds a pointer to object #obj
-  | op (text : String)                   -- resolved operator expression (`-2`, `n + 1`): operands live in `e`, `u` is never written
+  | op (text : String)                   -- resolved operator expression (`n + 1`, `-k`): operands live in `e`, `u` is never written
+  | negLit (v : Int)                     -- OP_NEGATE applied to an integer literal of value v (`-2`): `u` of the op never written, `e.op1->u.integer = v`
   | runtime (attr : String)              -- `symbol.resolved == 0`: group reference SELF\e.attr
   deriving Repr, DecidableEq
 
@@ -46,6 +47,7 @@ def readUInteger (α : Ambient) : BoundExpr → Int
   | .ident obj _ => toInt32 (α.addr obj)
   | .funcall _ => toInt32 (α.addr 0)       -- u.funcall.function: a pointer (never read by either rule)
   | .op _ => 0
+  | .negLit _ => 0
   | .runtime _ => 0
 
 def exprText : BoundExpr → String
@@ -53,6 +55,7 @@ def exprText : BoundExpr → String
   | .funcall t => t
   | .ident _ t => t
   | .op t => t
+  | .negLit v => "-" ++ toString v
   | .runtime a => a
 
 /-- the line `AGGRprint_bound` writes to the implementation file -/
@@ -69,10 +72,16 @@ def printBound (rule : BoundRule) (α : Ambient) (var : String) (nr : Nat) (cnam
       match b with
       | .intLit v => s!"        {var}->SetBound{nr}( {v} );\n"
       | _ => s!"        {var}->SetBound{nr}FromExpressFuncall( \"{exprText b}\" );\n"
+    | .literalOrNegated =>
+      match b with
+      | .intLit v => s!"        {var}->SetBound{nr}( {v} );\n"
+      | .negLit v => s!"        {var}->SetBound{nr}( {-v} );\n"
+      | _ => s!"        {var}->SetBound{nr}FromExpressFuncall( \"{exprText b}\" );\n"
 
 /-- bounds on which a rule never reads a union member that holds an address -/
 def safeFor : BoundRule → BoundExpr → Bool
   | .literalOnly, _ => true
+  | .literalOrNegated, _ => true
   | .legacy, .ident _ _ => false
   | .legacy, _ => true
 
